@@ -14,6 +14,7 @@ import warnings
 import numpy as np
 
 from harness.common import rat, rat_list, parse_rat_list, Fraction, MachineryError
+from harness.props import c15_atmos
 
 TOL = 1e-9
 WHERE_CODE = {'left': 1, 'right': 2, 'top': 3, 'bottom': 4}
@@ -94,10 +95,18 @@ def make_layer(case, cn2=None, grid=None, vel=None, L0=None):
     elif case.get('seedobj'):
         # the caller passes a Generator object and keeps it (ops ['cdraw', n] draw from it)
         seed = gen = np.random.default_rng(case['seed'])
+    # constructor arguments the cases vary (absent = the default is left to the code)
+    kw = {}
+    if case.get('height') is not None:
+        kw['height'] = case['height']
     if case['kind'] == 'finite':
-        layer = hcipy.FiniteAtmosphericLayer(g, c, l0, v, seed=seed)
+        if case.get('oversampling') is not None:
+            kw['oversampling'] = case['oversampling']
+        layer = hcipy.FiniteAtmosphericLayer(g, c, l0, v, seed=seed, **kw)
     else:
-        layer = hcipy.InfiniteAtmosphericLayer(g, c, l0, v, use_interpolation=bool(case['interp']), seed=seed)
+        if case.get('stencil_length') is not None:
+            kw['stencil_length'] = case['stencil_length']
+        layer = hcipy.InfiniteAtmosphericLayer(g, c, l0, v, use_interpolation=bool(case['interp']), seed=seed, **kw)
     layer._verif_gen = gen
     layer._verif_shared = gen is not None and same_stream(layer._original_rng, gen)
     return layer
@@ -906,10 +915,27 @@ def gen_wind(rng, dx, dy):
     return [a * dx, b * dy]
 
 
+OVERSAMPLINGS = [1.5, 1.5, 2.5, 1.25, 3.0, 4.0, 1.0, 2.0, 3.5]
+
+
+def gen_ctor_args(rng, case):
+    """the constructor arguments beyond grid / strength / outer scale / velocity / seed: `oversampling` of the finite layer (a
+    scalar: integer and non-integer values — the low-frequency part of the multiscale noise has the period oversampling x extent,
+    the high-frequency part one extent), `stencil_length` of the infinite layer, `height` of both; half of the cases leave the defaults"""
+    if case['kind'] == 'finite' and 'oversampling' not in case and rng.random() < 0.5:
+        case['oversampling'] = float(OVERSAMPLINGS[int(rng.integers(len(OVERSAMPLINGS)))])
+    if case['kind'] == 'infinite' and 'stencil_length' not in case and rng.random() < 0.3:
+        case['stencil_length'] = int(rng.choice([1, 3]))
+    if 'height' not in case and rng.random() < 0.3:
+        case['height'] = float(rng.choice([0.0, 512.0, 1024.5]))
+    return case
+
+
 def decorate(rng, case, live=True):
     """which model runs the case (value-level `fin`/`inf` or heap-level `hfin`/`hinf`), how the seed arrives (int or a
     Generator object the caller keeps and draws from), parameter changes on the *running* finite layer"""
     ops = case['ops']
+    gen_ctor_args(rng, case)
     case['heap'] = bool(rng.random() < 0.5)
     if case['kind'] == 'infinite' and case['nx'] * case['ny'] <= 120 and rng.random() < 0.3:
         case['ar'] = True        # the first three extrusions are re-computed by the model from the real A, B, stencil, normals
@@ -1080,13 +1106,18 @@ def gen_cross_case(rng, kind, big):
             'seed': int(rng.integers(0, 2 ** 31)), 'cn2': float(rng.integers(1, 64)) * 2.0 ** -44,
             'L0': float(rng.choice([4.0, 10.0])) * max(nx * dx, ny * dy) / 4.0, 'k': float(rng.choice([0, 0, 2.0])),
             'interp': bool(rng.random() < 0.5), 'style': 'crossing'}
+    gen_ctor_args(rng, case)
     ops = [['read', 1.0]] if rng.random() < 0.6 else []
     ms = sorted(set(int(m) for m in rng.choice([1, 2, 3, 5, 7], size=int(rng.integers(2, 5)))))
+    if case.get('oversampling') is not None:
+        # the multiples of oversampling x extent (the period of the low-frequency part), also when that is not a whole number of extents
+        o = case['oversampling']
+        ms = sorted(set(ms[:2] + [o * j for j in range(1, int(rng.integers(2, 4)))]))
     if kind == 'infinite' and not big:
         ms = [m for m in ms if m <= 5] or [1, 2]
     r = 1 if n < 8 else 2
     for m in ms:
-        T = (m * n) // abs(p)                            # last whole time with |p| T <= m n
+        T = int((m * n) // abs(p))                       # last whole time with |p| T <= m n
         t_before = float(T - int(rng.integers(1, r + 1)))
         t_after = float(T + int(rng.integers(1, r + 1)))
         times = [t_before]
@@ -1216,6 +1247,21 @@ DIRECTED = [
 # ---------------------------------------------------------------------------------------------
 
 def handle(ctx, case, batch):
+    if case['kind'] == 'atmos':
+        bad, obs, counts = c15_atmos.judge_atmos(case)
+        kinds = ''.join(l['kind'][0] for l in case['layers'])
+        ctx.count('atmos:layers %s' % ('all finite' if 'i' not in kinds else 'all infinite' if 'f' not in kinds else 'mixed'))
+        ctx.count('atmos:%d layers' % len(kinds))
+        for k, n in counts.items():
+            ctx.count(k, n)
+        for key, what in bad:
+            ctx.violation(key, what, case)
+        nread = sum(1 for o in obs if o['op'][0] in ('read', 'forward'))
+        ctx.case(case if len(ctx.samples) < 7 and ctx.evaluations % 5 == 0 else None,
+                 nontrivial_key=('atmos', kinds, case['nx'], case['ny'], len(case['ops']), bool(case['scint'])) if nread else None)
+        lines, want = c15_atmos.atmos_lines(case, obs)
+        batch.append((case, obs, lines, want))
+        return
     if case['kind'] == 'noise':
         bad, obs, counts = judge_noise(case)
         sig = (case['cls'], case['nx'] == case['ny'], case['shift'][0] != 0, case['shift'][1] != 0, case['nx'], case['ny'])
@@ -1245,6 +1291,13 @@ def handle(ctx, case, batch):
         ctx.count('%s:pixels %s' % (case['kind'], 'square' if case['dx'] == case['dy'] else 'non-square (dx != dy)'))
         # accumulated displacement in grid extents, and consecutive reads that straddle a multiple of the extent
         mx, last, strad, on = 0.0, None, 0, 0
+        ovs = case.get('oversampling')
+        strad_o = 0
+        if case['kind'] == 'finite':
+            ctx.count('finite:oversampling %s' % ('default' if ovs is None else 'integer' if ovs == int(ovs) else 'non-integer'))
+        else:
+            ctx.count('infinite:stencil_length %s' % ('default' if case.get('stencil_length') is None else case['stencil_length']))
+        ctx.count('%s:height %s' % (case['kind'], 'default' if case.get('height') is None else 'given'))
         vel = list(case['vel'])
         for o in obs:
             if o['op'][0] == 'reset':
@@ -1257,11 +1310,15 @@ def handle(ctx, case, batch):
                     for a, b in zip(last, e):
                         if abs(b - a) < 1 and int(np.floor(a)) != int(np.floor(b)):
                             strad += 1
+                        if ovs is not None and ovs != int(ovs) and abs(b - a) < 1 and int(np.floor(a / ovs)) != int(np.floor(b / ovs)):
+                            strad_o += 1
                 last = e
         for lim in (1, 2, 5):
             if mx > lim:
                 ctx.count('%s:accumulated displacement > %d extent(s)' % (case['kind'], lim))
         ctx.count('%s:consecutive reads straddling a multiple of the extent' % case['kind'], strad)
+        if strad_o:
+            ctx.count('finite:consecutive reads straddling a multiple of (non-integer oversampling) x extent', strad_o)
         ctx.count('%s:reads exactly on a multiple of the extent' % case['kind'], on)
         ctx.count('%s:resets' % case['kind'], nres)
         ctx.count('%s:independent resets' % case['kind'], sum(1 for op in case['ops'] if op[0] == 'reset' and op[1]))
@@ -1317,6 +1374,9 @@ def run(ctx):
             cases.append(gen_layer_case(ctx.rng, 'infinite', big and i % 3 == 0))
         else:
             cases.append(gen_noise_case(ctx.rng, big and i % 3 == 0))
+    cases += [copy.deepcopy(c) for c in c15_atmos.DIRECTED]
+    for i in range(ctx.scale(30, 400)):
+        cases.append(c15_atmos.gen_atmos_case(ctx.rng, big and i % 3 == 0))
     batch = []
     for case in cases:
         handle(ctx, case, batch)
@@ -1328,7 +1388,9 @@ def run(ctx):
     out = ctx.model(all_lines)
     for (case, obs, lines, idx), (b, m) in zip(batch, spans):
         o = out[b:b + m]
-        if case['kind'] == 'noise':
+        if case['kind'] == 'atmos':
+            c15_atmos.compare_atmos(ctx, case, obs, idx, o)
+        elif case['kind'] == 'noise':
             compare_noise(ctx, case, obs, o)
         else:
             idx, nl, want = idx
@@ -1337,7 +1399,9 @@ def run(ctx):
 
 
 def replay(ctx, case):
-    if case['kind'] == 'noise':
+    if case['kind'] == 'atmos':
+        bad, _, _ = c15_atmos.judge_atmos(case)
+    elif case['kind'] == 'noise':
         bad, _, _ = judge_noise(case)
     else:
         bad, _, _ = judge(case)
